@@ -129,6 +129,25 @@ def replay(ctx, rec):
     return CHECKS[rec['check']](rec['input'])
 
 
+def arity_neighbours(t):
+    """Trees that differ from t only in the operand COUNT of one and/or node (operands appended
+    or dropped at the end): near misses for an equality that walks operands pairwise."""
+    out = []
+
+    def rec(t, rebuild):
+        if t[0] in fm.LEAF:
+            return
+        if t[0] in ('and', 'or'):
+            out.append(rebuild(t + (t[1],)))
+            out.append(rebuild(t + (t[-1],)))
+            if len(t) > 3:
+                out.append(rebuild(t[:-1]))
+        for i, c in enumerate(t[1:]):
+            rec(c, lambda x, i=i, t=t, rebuild=rebuild: rebuild(t[:i + 1] + (x,) + t[i + 2:]))
+    rec(t, lambda x: x)
+    return out
+
+
 def deep_scope(logic, atoms, stride):
     """Every stride-th formula of the logic with exactly 3 operators over the atoms."""
     leaves = tuple(('ap', a) for a in atoms)
@@ -184,6 +203,19 @@ def enum_shard(st, shard, nshards, payload):
                 others = order[(bidx * 7) % 13::97]
                 for i in idxs:
                     st.evaluations += 1
+                    f = None
+                    for g in arity_neighbours(forms[i])[:payload.get('neighbours', 2)]:
+                        # same operator, the operands of one a positional prefix of the other's
+                        st.evaluations += 1
+                        st.nontrivial += 1
+                        f = check_pair({'logic': logic, 'f': forms[i], 'g': g}) or \
+                            check_pair({'logic': logic, 'f': g, 'g': forms[i], 'raw': True})
+                        if f is not None:
+                            break
+                    if f is not None:
+                        if st.failure is None:
+                            st.failure = f
+                        return
                     f = check_clone({'logic': logic, 'f': forms[i], 'raw': bool(i % 2)})
                     if f is None:
                         f = check_pair({'logic': logic, 'f': forms[i], 'g': forms[i], 'raw': bool(i % 2)})
@@ -235,7 +267,8 @@ def run(ctx):
                 'operators over atom pairs from the keyword-hugging identifier pool (reserved words '
                 'of the logic excluded); formulas sorted by printed length and cut into blocks: all '
                 'ordered pairs inside a block plus a stride of far pairs; every formula against an '
-                'independently built copy (explicit vs raw str/bool leaves); the whole scope plus a stride of the '
+                'independently built copy (explicit vs raw str/bool leaves) and against its arity neighbours (one and/or '
+                'node with an operand appended or dropped at the end); the whole scope plus a stride of the '
                 'formulas with exactly 3 operators must give pairwise distinct dict keys.  Oracle: tree identity '
                 '(harness tuples) vs ==, !=, hash, set and dict behaviour, symmetry, reflexivity; '
                 'clone(): equal, same tree, no node object and no children list shared; Bool vs '
@@ -287,9 +320,13 @@ def random_shard(st, shard, nshards, payload):
         a = draw(s)
         # b, c: equal to a, or a one-node variation, or independent
         def variant():
-            how = draw(hs.sampled_from(['same', 'same', 'other', 'swap']))
+            how = draw(hs.sampled_from(['same', 'same', 'other', 'swap', 'arity', 'arity']))
             if how == 'same':
                 return a
+            if how == 'arity':
+                nb = arity_neighbours(a)
+                if nb:
+                    return nb[draw(hs.integers(0, len(nb) - 1))]
             if how == 'swap' and len(a) == 3:
                 return (a[0], a[2], a[1])
             return draw(s)
